@@ -92,6 +92,7 @@ class Lab:
         self.effects = Run()
         eff = _effects(self.effects)
         self.analysed: list = []
+        self.printed: list = []      # arguments of print / typer.echo calls
         self._measuring = False
         mf = prj.maybe_func("codelimit.common.Scanner:scan_file")      # follows a re-export to wherever the function lives now
         self.measure_qual = mf.qual if mf is not None else None
@@ -183,7 +184,10 @@ class Lab:
                         cls_.fields["__call__"] = lx
                         return cls_
                     return lx
-                if base in ("info", "debug", "warning", "print", "echo"):
+                if base in ("print", "echo", "secho"):
+                    self.printed.append((list(args), dict(kwargs)))
+                    return None
+                if base in ("info", "debug", "warning"):
                     return None
                 if name.endswith("typer.Exit") or base == "Exit":
                     return Sym("Exit", **{k: v for k, v in kwargs.items()})
